@@ -8,6 +8,7 @@ run of instance `r` on its own actions; the reward is a function of the instance
 There is no post-finish padding in this family (C02: all rows finish at step `n`).
 -/
 import Rl4co.Env.Tsp
+import Rl4co.Proofs.TspfamParams
 
 namespace Rl4co.Tsp
 
@@ -21,7 +22,7 @@ def rowStep (rows : List (Inst × State)) (acts : List Nat) : List (Inst × Stat
 theorem firstFlag_of_lockStep {k : Nat} {rows : List (Inst × State)} (h : LockStep k rows)
     {r : Inst × State} (hr : r ∈ rows) : firstFlag (rows.map (·.2)) = firstFlag [r.2] := by
   have hk := h r hr
-  simp only [firstFlag, List.all_cons, List.all_nil, Bool.and_true, List.all_map]
+  simp only [firstFlag_eq, List.all_cons, List.all_nil, Bool.and_true, List.all_map]
   by_cases h0 : k = 0
   · have : (rows.all ((fun s => s.i != 0) ∘ fun x => x.2)) = false := by
       apply List.all_eq_false.mpr
